@@ -153,6 +153,20 @@ var c10Scripts = []c10Script{
 		func(x *c10Ctx) { x.in = x.w.Connect(x.ps.Addr); x.in.Handshake(x.ps.RemoteAS, 90, remoteIDu) },
 		func(x *c10Ctx) { x.in.Close() },
 	}},
+	{name: "handler-writes", setup: func(x *c10Ctx) {
+		// the update handler takes a few microseconds and then answers with WriteUpdate: a
+		// stop issued meanwhile has to wait for it, and the write must return
+		x.ps.Passive = true
+		x.ps.Cfg.OnUpdate = func(s *hz.Session, _ int, _ []byte) *corebgp.Notification {
+			time.Sleep(3 * time.Microsecond)
+			s.Writer.WriteUpdate([]byte{0, 0, 0, 0})
+			return nil
+		}
+	}, steps: []func(*c10Ctx){
+		func(x *c10Ctx) { x.in = x.w.Connect(x.ps.Addr); x.in.Handshake(x.ps.RemoteAS, 90, remoteIDu) },
+		func(x *c10Ctx) { x.in.SendUpdate(updBody(1, 0)) },
+		func(x *c10Ctx) { x.in.SendUpdate(updBody(1, 1)); x.in.SendUpdate(updBody(1, 2)) },
+	}},
 	{name: "partial-update", setup: func(x *c10Ctx) { x.ps.Passive = true }, steps: []func(*c10Ctx){
 		func(x *c10Ctx) { x.in = x.w.Connect(x.ps.Addr); x.in.Handshake(x.ps.RemoteAS, 90, remoteIDu) },
 		func(x *c10Ctx) { x.in.Send(wire.Update(make([]byte, 100))[:29]) }, // a header and part of its body
@@ -200,7 +214,7 @@ func c10World(t *testing.T, p c10Params, instants *[]int64) rt.Result {
 	ceaseChecked := 0
 	extra := 0
 	if p.Stop == "ListenerFail" && p.Seed%2 == 1 {
-		extra = 2 // three listeners failing at the same instant
+		extra = 2 // three listeners: all failing at the same instant, or (Seed%4 == 3) only the first
 	}
 	closeDelay := time.Duration(0)
 	if p.Step >= 0 && p.Seed%4 == 1 {
@@ -276,7 +290,7 @@ func c10World(t *testing.T, p c10Params, instants *[]int64) rt.Result {
 		// state was already OpenSent or later stays in one of the three states until it
 		// is stopped, whatever transition is in flight.
 		benign := map[string]bool{"inbound-passive": true, "inbound-active": true, "outbound": true, "outbound-slow-dial": true,
-			"collision": true, "collision-simul": true, "writers": true, "writers-out": true, "hold-zero": true, "partial-update": true, "partial-open": true}
+			"collision": true, "collision-simul": true, "writers": true, "writers-out": true, "hold-zero": true, "partial-update": true, "partial-open": true, "handler-writes": true}
 		if quiesced || benign[p.Script] {
 			latest := map[string]*hz.RConn{}
 			for _, c := range w.Conns() { // race-free view of the connections made so far
@@ -322,6 +336,9 @@ func c10World(t *testing.T, p c10Params, instants *[]int64) rt.Result {
 			// the listener fails: Serve must stop every peer as on Close and return that error
 			w.Lis.Fail(errors.New("injected accept failure"))
 			for k, l := range w.Extra {
+				if p.Seed%4 == 3 {
+					break // the other listeners are fine: Serve closes them and joins their accept loops
+				}
 				l.Fail(fmt.Errorf("injected accept failure on extra listener %d", k))
 			}
 			for i := 0; i < 5; i++ {
